@@ -35,16 +35,16 @@ class Conn:
 
 def roundtrip(msgtype, flags, seq, ser, payload, ann, corr, compression):
     desc = {"fn": "roundtrip", "type": msgtype, "flags": flags, "seq": seq, "ser": ser, "payload_len": len(payload),
-            "payload_head": list(payload[:8]), "annotations": {k: len(v) for k, v in ann.items()}, "corr": corr is not None,
+            "payload_head": list(payload[:8]), "annotations": {k: "%s of %d bytes" % (type(v).__name__, len(bytes(v))) for k, v in ann.items()}, "corr": corr is not None,
             "compression": compression}
     config.COMPRESSION = compression
     current_context.correlation_id = corr
     try:
         m = P.SendingMessage(msgtype, flags, seq, ser, payload, annotations=ann)
     except errors.ProtocolError:
-        total = len(payload) + sum(8 + len(v) for v in ann.values())
+        total = len(payload) + sum(8 + len(bytes(v)) for v in ann.values())
         if compression and len(payload) > 100:
-            total = len(zlib.compress(payload, 4)) + sum(8 + len(v) for v in ann.values())
+            total = len(zlib.compress(payload, 4)) + sum(8 + len(bytes(v)) for v in ann.values())
         if total <= config.MAX_MESSAGE_SIZE:
             return dict(desc, violated="encoder refused a message within MAX_MESSAGE_SIZE")
         return None
@@ -170,7 +170,9 @@ def main(mode):
     corr = uuid.UUID(int=0x1234567890abcdef1234567890abcdef)
     payloads = [b"", b"p", b"x" * 100, b"x" * 101, b"y" * 5000, bytes(rnd.randrange(256) for _ in range(101)),
                 bytes(rnd.randrange(256) for _ in range(700)), zlib.compress(bytes(rnd.randrange(256) for _ in range(400)))]
+    import array
     anns = [{}, {"ABCD": b""}, {"ABCD": b"v" * 3, "WXYZ": memoryview(b"mv"), "QQQQ": bytearray(b"\0\1\2")},
+            {"WIDE": memoryview(array.array("I", [1, 2, 3])), "HALF": memoryview(array.array("H", [])), "ABCD": b"x"},     # memoryviews with multi-byte elements
             {"A" + str(i).zfill(3): bytes([i]) * i for i in range(12)}]
     fields = [(1, 0, 0, 0), (255, 0xffff & ~0x42, 65535, 255), (4, P.FLAGS_COMPRESSED | P.FLAGS_ONEWAY, 65535, 2), (5, P.FLAGS_EXCEPTION, 1, 3)]
     config.MAX_MESSAGE_SIZE = 1024 * 1024 * 1024
